@@ -544,6 +544,7 @@ func (c *fnCtx) applyContract(st *State, ci calleeInfo, args []SymVal, rt types.
 	}
 	pre := st.clone()
 	bind := func(env *Env) {
+		env.atCall = true
 		for i, n := range ci.names {
 			if i < len(args) {
 				a := args[i]
